@@ -541,6 +541,11 @@ where
     pub fn message(&self, bytes: &[u8]) -> Option<RawPlaintext<M>> {
         let size = std::cmp::min(Uint::<M>::BYTES, bytes.len());
 
+        // A value with a non-zero byte beyond the width of N is not below N.
+        if bytes[size..].iter().any(|b| *b != 0) {
+            return None;
+        }
+
         let mut buf = Uint::<M>::default().to_le_bytes();
 
         buf.as_mut()[..size].copy_from_slice(&bytes[..size]);
